@@ -8,6 +8,7 @@ import (
 	"sync/atomic"
 
 	"github.com/semihalev/sdns/internal/contextutil"
+	"github.com/semihalev/sdns/internal/verifhook"
 )
 
 // A request tree cannot legitimately need an unbounded number of distinct
@@ -288,6 +289,7 @@ func calculateAggressiveNSEC3Hash(
 	name aggressiveCanonicalName,
 	parameters aggressiveNSEC3Parameters,
 ) []byte {
+	verifhook.Count("dnssec.nsec3hash")
 	digest := sha1.New() //nolint:gosec // RFC 5155 requires SHA-1 for NSEC3.
 	_, _ = digest.Write(name.wire)
 	_, _ = digest.Write(parameters.salt)
